@@ -49,6 +49,7 @@
 #define CAP 2000
 
 static int fail_uring;
+static int g_nullfd = -1;   /* /dev/null, kept on a high number to plug 0, 1, 2 */
 long __real_syscall(long nr, long a, long b, long c, long d, long e, long f);
 long __wrap_syscall(long nr, ...) {
   va_list ap; long a, b, c, d, e, f;
@@ -204,6 +205,7 @@ static int any_live(int fd) { int i; for (i = 0; i < nh; i++) if (H[i]->fd == fd
 static int any_live_raw(int fd) { int i; for (i = 0; i < nh; i++) if (H[i]->fd == fd && H[i]->inited && !H[i]->closed && H[i]->kind == 'r') return 1; return 0; }
 static int slot_kind_of_fd(int fd) { int i; for (i = 0; i < MAXS; i++) if (S[i].fd == fd && S[i].f) return S[i].f->kind; return 0; }
 static int fd_exists_in_loop(int fd) { return fd >= 0 && (unsigned) fd < loop.nwatchers && loop.watchers[fd] != NULL; }
+static int fd_is_peer(int fd) { int i; for (i = 0; i < MAXS; i++) if (S[i].fd != -1 && S[i].f && S[i].f->peer == fd) return 1; return 0; }
 static int fd_is_open(int fd) { int i; for (i = 0; i < MAXS; i++) if (S[i].fd == fd) return 1; return 0; }
 
 static void small_buffers(int fd) {
@@ -262,7 +264,7 @@ static void do_ops(char* ops, int in_cb) {
            * unless a slot already lives there; without <n> it keeps the first free number */
           int want = -1; char kk;
           if (sscanf(tok + 1, "%d,%c,%d", &a, &kk, &want) == 3 && want >= 0 && want <= 2 &&
-              S[a].fd > 2 && !fd_is_open(want)) {
+              S[a].fd > 2 && !fd_is_open(want) && !fd_is_peer(want)) {
             if (dup2(S[a].fd, want) == want) { close(S[a].fd); S[a].fd = want; }
           }
         }
@@ -279,7 +281,11 @@ static void do_ops(char* ops, int in_cb) {
       if (sscanf(tok + 1, "%d", &a) == 1 && a >= 0 && a < MAXS && S[a].fd != -1 &&
           !any_busy(S[a].fd) && !(strict && any_live(S[a].fd))) {
         printf("x%d ", S[a].fd);
-        close(S[a].fd); S[a].fd = -1;
+        close(S[a].fd);
+        /* a low number is plugged with /dev/null again at once: the numbers 0, 1, 2 are only ever
+         * handed out through "O<sl>,<kind>,<n>", never to a peer, a listener or a dup of the harness */
+        if (S[a].fd <= 2) dup2(g_nullfd, S[a].fd);
+        S[a].fd = -1;
         if (--S[a].f->refs == 0) { if (S[a].f->peer != -1) close(S[a].f->peer); free(S[a].f); }
         S[a].f = NULL;
       } else printf("- ");
@@ -450,6 +456,7 @@ int main(void) {
         stdout = fdopen(hi, "w");
         setvbuf(stdout, NULL, _IOFBF, 1 << 16);
         dup2(nul, 0); dup2(nul, 1); dup2(nul, 2);
+        g_nullfd = fcntl(nul, F_DUPFD, 210);
         if (nul > 2) close(nul);
       }
       run_case(line);
